@@ -118,6 +118,19 @@ func (cs *checkerSet) exportInvalid(w *World, module string, err error) *core.Vi
 	return nil
 }
 
+// importChanged: a module's exported state differs after an import/export round trip.  For the escrow
+// module that is a change of what tenants and providers are owed (balances, states, the settlement
+// clock) made by a restart: C01/C02/C03/C05 say it must not happen under any history.
+func (cs *checkerSet) importChanged(w *World, module, diff string) *core.Violation {
+	if module == "escrow" {
+		switch cs.prop {
+		case "C01", "C02", "C03", "C05":
+			return cs.r.Flag(cs.prop+"/escrow-state-changed-by-restart-from-export", "escrow state exported at height %d is not what a chain booted from that export holds: %s", w.Height, diff)
+		}
+	}
+	return nil
+}
+
 func describeOp(w *World, op *Op) string {
 	name := func(b string) string {
 		if a := w.ActorByAddr(b); a != nil {
